@@ -62,6 +62,17 @@ FAMILIES: Dict[str, Dict[str, Any]] = {
         "invariants": [],
         "properties": ["PTimingExact", "PTrafficPartition", "PSeqGapFree"],
     },
+    "Hostile": {
+        "module": "MC_Hostile",
+        "const": dict(REAL, TimingOn="TRUE", Modes='{"inline", "deferred"}', Conns='{"a", "s", "h"}',
+                      MaxQ=2, MaxDeaths=1, MaxEnv=4, TickSteps="{}", MaxNow=0, AllowOpen="FALSE",
+                      AllowFin="TRUE", AllowRst="TRUE", GenDepth=100, AnyW="FALSE"),
+        "subst": {"Setup": "HSetup", "Alpha": "HAlpha"},
+        "quick": dict(MaxEnv=3),
+        "gen": dict(MaxEnv=6),
+        "invariants": ["IUniqueIds", "IProbeServed"],
+        "properties": ["PBystanders", "PSeqGapFree"],
+    },
     "Identity": {
         "module": "MC_Identity",
         "const": dict(MaxModules=6, DynStart=3, MaxHosts=5, MaxMsgTypes=10000, TrafficChunk=64, MaxActive=256,
